@@ -33,9 +33,9 @@ def model(chk: Check, tier: str):
     chk.add(states=r.distinct, transitions=r.generated)
 
 
-def feed(fmt: str, packets) -> dict:
+def feed(fmt: str, packets, dec=None) -> dict:
     from nmea2000.decoder import NMEA2000Decoder
-    dec = NMEA2000Decoder()
+    dec = dec or NMEA2000Decoder()
     outs = []
     for p in packets:
         b = bytes(p)
@@ -84,8 +84,31 @@ def bind(chk: Check, tier: str, seed: int):
             del o["_m"]
             obs[f] = o
         recs.append({"obs": obs})
+    # history pass: one long-lived decoder per format; every message is sent twice in a row - the same frames under
+    # the same sequence counter on the same stream - and both deliveries must equal the pre-assembled message
+    n_fresh = len(recs)
+    from nmea2000.decoder import NMEA2000Decoder
+    live = {f: NMEA2000Decoder() for f in FORMATS}
+    hist = [x for x in zip(picked, emitted) if x[0][0]["fast"]][::2] + [x for x in zip(picked, emitted) if not x[0][0]["fast"]][::6]
+    hpicked = []
+    for (m, d, _), em in hist:
+        for rep in (1, 2):
+            obs = {}
+            for f in FORMATS:
+                o = feed(f, em[f], live[f])
+                if o["_m"] is not None:
+                    mm = o["_m"]
+                    o["msg"] = proj(mm, by_id.get(mm.id), raw_by_id.get(mm.id))
+                del o["_m"]
+                obs[f] = o
+            recs.append({"obs": obs})
+            hpicked.append((m, d, rep))
+    emitted_all = list(emitted) + [em for (_, em) in hist for _ in (1, 2)]
     v = run_wire("C07", recs, wd, "c07")
     chk.gate(v["n"] == len(recs), "C07 verdicts incomplete")
+    chk.add(history_pass_records=len(recs) - n_fresh)
+    picked = list(picked) + [(m, d, None) for m, d, _ in hpicked]
+    emitted = emitted_all
     for b in v["bad"]:
         m, d, _ = picked[b["k"] - 1]
         fmt = b["v"]["f"]
@@ -93,12 +116,13 @@ def bind(chk: Check, tier: str, seed: int):
                "actiL": "actisense"}.get(fmt, fmt)
         kind = "fast" if m["fast"] else "single"
         short = "/short" if m["fast"] and len(m["payload"]) <= 8 else ""
-        chk.violation(f"{b['v']['c']}/{fam}/{kind}{short}",
+        hist_tag = "/sent-again" if b["k"] > n_fresh else ""
+        chk.violation(f"{b['v']['c']}/{fam}/{kind}{short}{hist_tag}",
                       f"{d['id']} (PGN {m['pgn']}, {len(m['payload'])} bytes, {kind}) through {fmt}: {b['v']['c']} "
                       f"{recs[b['k'] - 1]['obs'][fmt]['err']}",
                       {"message": m, "format": fmt, "rendering": [bytes(x).hex() for x in emitted[b["k"] - 1][fmt]][:4]})
     nfast = sum(1 for m in msgs if m["fast"])
-    chk.add(traces_validated_against_impl=len(recs) * len(FORMATS), messages=len(recs), fast_messages=nfast,
+    chk.add(traces_validated_against_impl=len(recs) * len(FORMATS), messages=n_fresh, fast_messages=nfast,
             short_fast_messages=sum(1 for m in msgs if m["fast"] and len(m["payload"]) <= 8),
             definitions=len({d["id"] for _, d, _ in picked}), formats=FORMATS)
     i = next(i for i, m in enumerate(msgs) if m["fast"])
